@@ -10,6 +10,11 @@ import itertools
 ABSENT = ("<absent>",)  # sentinel used in alphabets: key not in the dictionary
 
 
+def is_absent(v):
+    """ABSENT survives pickling between processes only by value, not identity."""
+    return isinstance(v, tuple) and v == ABSENT
+
+
 class Absent(Exception):
     pass
 
@@ -158,7 +163,7 @@ def product_dicts(spec):
     for combo in itertools.product(*[vs for _, vs in spec]):
         d = {}
         for k, v in zip(keys, combo):
-            if v is ABSENT:
+            if is_absent(v):
                 continue
             set_path(d, k, copy.deepcopy(v))
         yield d
